@@ -498,7 +498,7 @@ class Keyvalues:
                         # Special function - if the last prop was a
                         # keyvalue with this name, replace it instead.
                         if (
-                            can_flag_replace and
+                            can_flag_replace and cur_block_contents and
                             cur_block_contents[-1]._real_name == token_value and
                             cur_block_contents[-1].has_children()
                         ):
@@ -533,7 +533,7 @@ class Keyvalues:
                             # Special function - if the last prop was a
                             # keyvalue with this name, replace it instead.
                             if (
-                                can_flag_replace and
+                                can_flag_replace and cur_block_contents and
                                 cur_block_contents[-1]._real_name == token_value and
                                 isinstance(cur_block_contents[-1].value, str)
                             ):
